@@ -10,6 +10,7 @@ import (
 	"sort"
 	"strconv"
 	"strings"
+	"sync"
 
 	"golang.org/x/tools/go/packages"
 	"golang.org/x/tools/go/ssa"
@@ -38,6 +39,9 @@ type Program struct {
 	waitInv        map[*ssa.Function]*ssa.Function // monitor invariant re-assumed after (*sync.Cond).Wait
 	pureMethods    map[string]bool
 	callAsserts    map[*ssa.Function][]*callAssert
+	mutableField   map[*types.Var]bool
+	sourcePkg      map[*types.Package]bool
+	mutOnce        sync.Once
 }
 
 // callAssert: a ghost predicate that must hold at a particular call inside a function.
